@@ -26,7 +26,7 @@ ENV = dict(os.environ, GOFLAGS="-mod=mod", GOPROXY="off", GOSUMDB="off", GOTOOLC
 
 
 def sh(cmd, cwd, timeout=3600):
-    p = subprocess.run(cmd, cwd=cwd, env=ENV, stdout=subprocess.PIPE, stderr=subprocess.STDOUT, text=True, timeout=timeout)
+    p = subprocess.run(cmd, cwd=cwd, env=ENV, stdout=subprocess.PIPE, stderr=subprocess.STDOUT, text=True, errors="replace", timeout=timeout)
     return p.returncode, p.stdout
 
 
@@ -102,7 +102,7 @@ def main():
         for c in checks:
             cmd = ["./run.sh", c, "quick"] + (["--no-race"] if norace else [])
             e = dict(ENV, VERIF_REPLAY_DIR="/tmp/seed/replays", VERIF_MUTATE=mut, VERIF_EVIDENCE_DIR="/tmp/seed/evidence", VERIF_BUILD_DIR="/tmp/seed/build-%s" % prop)
-            p = subprocess.run(cmd, cwd="/verif", env=e, stdout=subprocess.PIPE, stderr=subprocess.STDOUT, text=True)
+            p = subprocess.run(cmd, cwd="/verif", env=e, stdout=subprocess.PIPE, stderr=subprocess.STDOUT, text=True, errors="replace")
             classes = re.findall(r"^\s+\[([^\]]+)\] x(\d+)", p.stdout, re.M)
             meta["checks"][c] = {"exit": p.returncode, "violation_classes": ["%s x%s" % x for x in classes][:12],
                                  "summary": p.stdout.strip().splitlines()[-1] if p.stdout.strip() else ""}
